@@ -187,4 +187,29 @@ theorem failure_local (c : Comps S P Row) (cfg cfg' : Cfg) (picks picks' : List 
         (i, row) ∈ (run c cfg' picks' seed [t]).rowsOf (0, 0, 0) :=
   failure_local' c cfg picks seed ts cfg' picks' k i row
 
+/-! ## phase 5: isolation of the PMF / learning_info learner objects of the SequentialCB experiment model -/
+
+section phase5
+variable {σ V R : Type} [DecidableEq V] [Coba.C06.RewardFn R V]
+
+/-- the rows of a triple of an experiment over SequentialCB with PMF-answering / info-writing learner objects do not
+depend on which other triples the experiment lists, on their order, on the configuration or on the schedule: the
+generator of a PMF learner's `SafeLearner` and the `learning_info` channel are not shared between evaluations -/
+theorem sequentialCB_ext_rows_isolated (w : SeqWorldX σ V R P) (cfg cfg' : Cfg) (picks picks' : List Nat)
+    (seed : Nat) (ts ts' : List Triple) (t : Triple) (ht : t ∈ ts) (ht' : t ∈ ts') :
+    (run (seqCompsX w) cfg picks seed ts).rowsOf (idKey ts t) =
+      (run (seqCompsX w) cfg' picks' seed ts').rowsOf (idKey ts' t) :=
+  rows_independent_of_other_triples (seqCompsX w) cfg cfg' picks picks' seed ts ts' t ht ht'
+
+/-- … and equal the rows of the experiment that lists this triple alone -/
+theorem sequentialCB_ext_rows_alone (w : SeqWorldX σ V R P) (cfg cfg' : Cfg) (picks picks' : List Nat)
+    (seed : Nat) (ts : List Triple) (t : Triple) (ht : t ∈ ts) :
+    (run (seqCompsX w) cfg picks seed ts).rowsOf (idKey ts t) =
+      (run (seqCompsX w) cfg' picks' seed [t]).rowsOf (0, 0, 0) := by
+  have h := rows_independent_of_other_triples (seqCompsX w) cfg cfg' picks picks' seed ts [t] t ht
+    (List.mem_singleton.2 rfl)
+  rwa [idKey_singleton] at h
+
+end phase5
+
 end Coba.C03
